@@ -28,13 +28,13 @@ NoT    == [f \in TF |-> "keep"]
 ExportUpdates ==
   {[kind |-> "export", n |-> n, tp |-> tp, t |-> t, log |-> lg, rlc |-> rl, ro |-> ro, maxfs |-> mf, squash |-> sq] :
      n \in NGiven, tp \in {"nil", "set"}, t \in TGiven, lg \in {"nil", "l1"}, rl \in {"nil", "r1"},
-     ro \in {"T", "F"}, mf \in {"zero", "pos"}, sq \in {"keep", "same", "other"}}
+     ro \in {"T", "F"}, mf \in {"zero", "pos"}, sq \in {"keep", "same", "other", "case"}}
 TuningUpdates ==
   {[kind |-> "tuning", n |-> n, tp |-> tp, t |-> t, log |-> lg, rlc |-> "keep", ro |-> "keep", maxfs |-> "keep", squash |-> "keep"] :
      n \in NKeep, tp \in {"keep", "nil", "set"}, t \in TKeep, lg \in {"keep", "nil", "l1"}}
 PolicyUpdates ==
   {[kind |-> "policy", n |-> [f \in NF |-> "keep"], tp |-> "keep", t |-> NoT, log |-> "keep", rlc |-> rl, ro |-> ro, maxfs |-> mf, squash |-> sq] :
-     rl \in {"nil", "r1"}, ro \in {"T", "F"}, mf \in {"zero", "pos"}, sq \in {"same", "other", "empty"}}
+     rl \in {"nil", "r1"}, ro \in {"T", "F"}, mf \in {"zero", "pos"}, sq \in {"same", "other", "empty", "case"}}
 \* an export update with tp = "nil" carries no sub-fields: normalise so that equal updates are one
 Norm(u) == IF u.tp = "set" THEN u ELSE [u EXCEPT !.t = NoT]
 Updates == {Norm(u) : u \in ExportUpdates \cup TuningUpdates \cup PolicyUpdates}
@@ -46,7 +46,7 @@ Init == cfg = InitCfg /\ last = [bad |-> {}, dev |-> {}, rejected |-> FALSE, pla
 Plain(u) == /\ \A f \in NF : u.n[f] \notin NonPos
             /\ \A f \in TF : u.t[f] \notin NonPos
             /\ ~(u.kind = "tuning" /\ u.tp = "nil")
-            /\ u.rlc # "nil" /\ u.squash \notin {"other", "empty"}
+            /\ u.rlc # "nil" /\ u.squash \notin {"other", "empty", "case"}
 
 Update(u) ==
   LET post == ApplyImpl(cfg, u, Fixed)
